@@ -17,6 +17,7 @@ inductive NE where
   | size            -- `frame.size_Mbits` (depends on whether the frame has been stamped)
   | zero            -- `0.0`
   | var (x : Nat)   -- a local variable (numbered in order of first assignment)
+  | arg             -- the method's optional numeric parameter (`frame_size_Mbits: Optional[float] = None`); `None` in arithmetic raises
   | add (a b : NE)
   | sub (a b : NE)
 deriving Repr, DecidableEq
@@ -27,6 +28,7 @@ inductive BE where
   | isUp            -- `self.is_up`
   | enabled         -- `self.enabled`
   | absent          -- `KEY not in self.bandwidth_load`
+  | argNone         -- `<optional parameter> is None`
   | le (a b : NE) | lt (a b : NE)
   | not (b : BE) | and (a b : BE) | or (a b : BE)
 deriving Repr, DecidableEq
@@ -37,9 +39,11 @@ inductive Prog where
   | retNone                            -- `return` / falling off the end
   | letN (x : Nat) (e : NE) (k : Prog) -- `x = <expr>`
   | setLoad (e : NE) (k : Prog)        -- `self.current_load = e` (`+= e` is `setLoad (add load e)`), same for `bandwidth_load[KEY]`
+  | setArg (e : NE) (k : Prog)         -- `<optional parameter> = e`
   | stamp (k : Prog)                   -- `frame.set_sent_timestamp()`
   | ite (c : BE) (t e : Prog)
   | ifCan (t e : Prog)                 -- `if <link / airspace>.can_transmit_frame(frame …): t else: e`
+  | ifCanWith (a : NE) (t e : Prog)    -- `if <link>.can_transmit_frame(frame, a)`: the caller hands a size (its own parameter is passed on as it is, `None` included)
   | deliver (t e : Prog)               -- `if receiver.receive_frame(frame): t else: e`
   | deliverAll (k : Prog)              -- the loop of `AirSpace.transmit` over the interfaces on the sender's hz
   | transmit (k : Prog)                -- `<link>.transmit_frame(sender_nic=self, frame=frame)` / `airspace.transmit(frame, self)`; result unused
@@ -59,6 +63,8 @@ structure St where
   load : Option Nat
   vars : List (Nat × Nat)
   stamped : Bool
+  /-- the optional numeric parameter of the running method: `none` = `None` (not handed by the caller) -/
+  arg : Option Nat := none
 deriving Repr, DecidableEq
 
 def lookup (vs : List (Nat × Nat)) (x : Nat) : Option Nat := (vs.find? (fun p => p.1 == x)).map (·.2)
@@ -69,6 +75,7 @@ def evalN (env : Env) (st : St) : NE → Option Nat
   | .size => some (if st.stamped then env.sizeS else env.sizeU)
   | .zero => some 0
   | .var x => lookup st.vars x
+  | .arg => st.arg
   | .add a b => match evalN env st a, evalN env st b with
     | some x, some y => some (x + y)
     | _, _ => none
@@ -82,6 +89,7 @@ def evalB (env : Env) (st : St) : BE → Option Bool
   | .isUp => some env.up
   | .enabled => some env.enabled
   | .absent => some st.load.isNone
+  | .argNone => some st.arg.isNone
   | .le a b => match evalN env st a, evalN env st b with
     | some x, some y => some (decide (x ≤ y))
     | _, _ => none
@@ -98,9 +106,16 @@ def evalB (env : Env) (st : St) : BE → Option Bool
     | some false => evalB env st b
     | none => none
 
+/-- the value of an argument expression at a call: the caller's own optional parameter is passed on as it is (`None` stays `None`),
+anything else must have a value -/
+def evalArg (env : Env) (st : St) : NE → Option (Option Nat)
+  | .arg => some st.arg
+  | e => (evalN env st e).map some
+
 /-- what the calls a body makes do (the callee's translated body, or an oracle for the far side) -/
 structure Sub where
-  can : St → Option (Bool × St)
+  /-- the admission test, handed a size by the caller (`some`) or not (`none`) -/
+  can : Option Nat → St → Option (Bool × St)
   tx : St → Option St
   deliver : St → Option (Bool × St)
   deliverAll : St → Option St
@@ -116,14 +131,23 @@ def exec (env : Env) (sub : Sub) : Prog → St → Option (Option Bool × St)
   | .setLoad e k, st => match evalN env st e with
     | some v => exec env sub k { st with load := some v }
     | none => none
+  | .setArg e k, st => match evalN env st e with
+    | some v => exec env sub k { st with arg := some v }
+    | none => none
   | .stamp k, st => exec env sub k { st with stamped := true }
   | .ite c t e, st => match evalB env st c with
     | some true => exec env sub t st
     | some false => exec env sub e st
     | none => none
-  | .ifCan t e, st => match sub.can st with
+  | .ifCan t e, st => match sub.can none st with
     | some (true, st') => exec env sub t st'
     | some (false, st') => exec env sub e st'
+    | none => none
+  | .ifCanWith a t e, st => match evalArg env st a with
+    | some v => (match sub.can v st with
+      | some (true, st') => exec env sub t st'
+      | some (false, st') => exec env sub e st'
+      | none => none)
     | none => none
   | .deliver t e, st => match sub.deliver st with
     | some (true, st') => exec env sub t st'
@@ -136,14 +160,14 @@ def exec (env : Env) (sub : Sub) : Prog → St → Option (Option Bool × St)
     | some st' => exec env sub k st'
     | none => none
 
-def noSub : Sub := { can := fun _ => none, tx := fun _ => none, deliver := fun _ => none, deliverAll := fun _ => none }
+def noSub : Sub := { can := fun _ _ => none, tx := fun _ => none, deliver := fun _ => none, deliverAll := fun _ => none }
 
 /-- call a method that returns a truth value: fresh locals, the caller's locals back afterwards; `None` is falsy -/
-def callBool (env : Env) (sub : Sub) (p : Prog) (st : St) : Option (Bool × St) :=
-  (exec env sub p { st with vars := [] }).map fun r => (r.1 == some true, { r.2 with vars := st.vars })
+def callBool (env : Env) (sub : Sub) (p : Prog) (a : Option Nat) (st : St) : Option (Bool × St) :=
+  (exec env sub p { st with vars := [], arg := a }).map fun r => (r.1 == some true, { r.2 with vars := st.vars, arg := st.arg })
 
 def callUnit (env : Env) (sub : Sub) (p : Prog) (st : St) : Option St :=
-  (exec env sub p { st with vars := [] }).map fun r => { r.2 with vars := st.vars }
+  (exec env sub p { st with vars := [], arg := none }).map fun r => { r.2 with vars := st.vars, arg := st.arg }
 
 /-- the far side as an oracle on the load: handed the frame while the load is `l`, it answers and leaves the load at … (what it
 sends meanwhile over this link / on this hz is accounted by the same code, recursively: the model's nested events) -/
@@ -156,7 +180,7 @@ def farAir (orc : Nat → Nat) (st : St) : Option St :=
 /-- a `send_frame` body run on top of the translated admission and accounting bodies -/
 def sendVia (env : Env) (send can tx : Prog) (deliver : St → Option (Bool × St)) (deliverAll : St → Option St) (st : St) :
     Option (Option Bool × St) :=
-  exec env { can := callBool env noSub can,
+  exec env { can := fun a => callBool env noSub can a,
              tx := callUnit env { noSub with deliver := deliver, deliverAll := deliverAll } tx,
              deliver := fun _ => none, deliverAll := fun _ => none } send st
 
